@@ -358,8 +358,10 @@ func outsStdSpecs() []outsNodeSpec {
 
 // outsStdWorld builds the standard world and establishes every tunnel and relay described above with real
 // handshakes, lighthouse updates/queries and relay control messages.
-func outsStdWorld() *outsWorld {
-	w := outsNewWorld(outsStdSpecs()...)
+func outsStdWorld() *outsWorld { return outsStdWorldFrom(outsStdSpecs()) }
+
+func outsStdWorldFrom(specs []outsNodeSpec) *outsWorld {
+	w := outsNewWorld(specs...)
 	x, p1, p2, r, q := w.n(outsX), w.n(outsP1), w.n(outsP2), w.n(outsR), w.n(outsQ)
 	w.block[[2]string{outsP1, outsP2}] = true
 	w.block[[2]string{outsQ, outsX}] = true
@@ -383,3 +385,11 @@ func outsStdWorld() *outsWorld {
 	w.settle(4)
 	return w
 }
+
+func mustAP(s string) netip.AddrPort { return netip.MustParseAddrPort(s) }
+
+func headerEncode(b []byte, ty, st uint8, idx uint32, ctr uint64) []byte {
+	return header.Encode(b, header.Version, header.MessageType(ty), header.MessageSubType(st), idx, ctr)
+}
+
+func nebulaDefaultRecvErr() (string, string) { return nebula.VerifOutsideDefaultRecvError(outsLogger("cfg")) }
